@@ -272,7 +272,7 @@ fn reconfirm(g: &dyn Group, ctx: &Ctx, line: &str, want_oracle: bool) -> bool {
     if !g.timing_sensitive() {
         return true;
     }
-    (0..RECONFIRM).any(|_| still_fails(g, ctx, line, want_oracle))
+    (0..RECONFIRM).any(|_| still_fails_ex(g, ctx, line, want_oracle, true))
 }
 
 #[derive(Default)]
@@ -316,6 +316,13 @@ fn run_lines(g: &dyn Group, ctx: &Ctx, lines: &[String]) -> Vec<String> {
 
 /// does `line` still fail (disagree with the model, or fail the oracle)?
 fn still_fails(g: &dyn Group, ctx: &Ctx, line: &str, want_oracle: bool) -> bool {
+    still_fails_ex(g, ctx, line, want_oracle, false)
+}
+
+/// `same_line`: the line is the one that failed (confirmation run), not a shrinking candidate — a model that cannot
+/// interpret it (`bad-op`) is then a disagreement like any other; for a shrinking candidate it means the candidate is
+/// not a valid case.
+fn still_fails_ex(g: &dyn Group, ctx: &Ctx, line: &str, want_oracle: bool, same_line: bool) -> bool {
     let io = guarded(|| g.run_impl(ctx, line));
     if g.inconclusive(&io) {
         return false;
@@ -327,7 +334,7 @@ fn still_fails(g: &dyn Group, ctx: &Ctx, line: &str, want_oracle: bool) -> bool 
         return false;
     }
     match run_driver(&ctx.driver, &[g.driver_line_with(line, &io)]) {
-        Ok(m) => g.canon(&m[0]) != g.canon(&io) && m[0] != "bad-op",
+        Ok(m) => g.canon(&m[0]) != g.canon(&io) && (same_line || m[0] != "bad-op"),
         Err(_) => false,
     }
 }
